@@ -329,6 +329,88 @@ def rule_size_memo(ctx: Ctx) -> RuleResult:
     return rr
 
 
+def rule_positions_opaque(ctx: Ctx) -> RuleResult:
+    """List-walker positions are arbitrary hashables (SimpleListWalker happens to use 0-based indexes; a custom walker
+    may use ids, sparse or negative numbers, tuples).  The scrolling protocol reports *counts*: what
+    get_first_visible_pos() returns must be counted by walking get_prev(), never a position value itself, and no code
+    of ListBox may single out integer positions (`isinstance(pos, int)`)."""
+    p = ctx.p
+    rr = RuleResult("KIND", "C20.10", "ListBox.get_first_visible_pos returns a count, not a walker position; positions are never tested for being integers", floor=1)
+    fi = p.func("urwid.widget.listbox.ListBox.get_first_visible_pos")
+    du = DefUse(fi)
+
+    def is_position(e, at, depth=0, seen=None):
+        seen = seen if seen is not None else set()
+        if depth > 6:
+            return False
+        if isinstance(e, ast.Attribute) and e.attr in ("position", "focus_position"):
+            return True
+        if isinstance(e, ast.Subscript) and isinstance(e.value, ast.Call) and callee_name(e.value) in ("get_prev", "get_next", "get_focus"):
+            return True
+        if isinstance(e, ast.Name):
+            for v, how, dn in du.reaching(e.id, at):
+                if (e.id, dn.id) in seen or not isinstance(v, ast.AST):
+                    continue
+                seen.add((e.id, dn.id))
+                if is_position(v, dn, depth + 1, seen):
+                    return True
+        return False
+
+    for r in [n for n in du.cfg.nodes if n.kind == "return" and n.ast.value is not None]:
+        rr.inst(f"return {norm(r.ast.value, 30)}", True, {"return": norm(r.ast, 40)})
+        if is_position(r.ast.value, r):
+            rr.add(finding("KIND", fi, r.stmt, f"`{norm(r.ast, 40)}` hands a walker position to the scroll bar as if it were the number of items above the view: with a walker whose positions are not 0-based indexes (ids 1000.., sparse, negative) the thumb is placed by a meaningless number", construct="walker position returned as a count"))
+    lb = p.cls("urwid.widget.listbox.ListBox")
+    for f in p.all_class_functions(lb):
+        for c in f.own_nodes():
+            if isinstance(c, ast.Call) and isinstance(c.func, ast.Name) and c.func.id == "isinstance" and len(c.args) == 2 and ast.unparse(c.args[1]) == "int" and "pos" in ast.unparse(c.args[0]):
+                rr.inst(f"{short(f)}:{norm(c, 40)}", True)
+                rr.add(finding("KIND", f, c, f"`{norm(c, 50)}` treats integer walker positions specially; positions are opaque", construct=f"integer test on a position: {norm(c, 50)}"))
+    return rr
+
+
+def rule_fit_test(ctx: Ctx) -> RuleResult:
+    """Scrollable.render may hand the padded full canvas back untrimmed only when it fits the view in *both*
+    directions; fixed content that is wider than the view but not taller still has to go through the right trim."""
+    from ..rules.exc import ExcEngine
+
+    p = ctx.p
+    rr = RuleResult("GUARD", "C20.11", "Scrollable.render returns the untrimmed canvas only under `cols fit and rows fit`", floor=1)
+    rn = p.func(f"{S}.render")
+    du = DefUse(rn)
+    cfg = du.cfg
+    # names by role: (canvas cols, canvas rows) from `x, y = canv.cols(), canv.rows()`; (maxcol, maxrow) from the size unpack
+    cc = cr = mc = mr = None
+    for n in rn.own_nodes():
+        if isinstance(n, ast.Assign) and isinstance(n.targets[0], ast.Tuple) and len(n.targets[0].elts) == 2 and all(isinstance(e, ast.Name) for e in n.targets[0].elts):
+            a, b = n.targets[0].elts
+            if isinstance(n.value, ast.Tuple) and len(n.value.elts) == 2 and all(isinstance(v, ast.Call) and isinstance(v.func, ast.Attribute) for v in n.value.elts) and n.value.elts[0].func.attr == "cols" and n.value.elts[1].func.attr == "rows":
+                cc, cr = a.id, b.id
+            if isinstance(n.value, ast.Name) and n.value.id == rn.params[1]:
+                mc, mr = a.id, b.id
+    if None in (cc, cr, mc, mr):
+        raise AnalysisError("Scrollable.render: canvas size / view size locals not identified")
+    trims = nodes_where(cfg, lambda x: isinstance(x, ast.Call) and isinstance(x.func, ast.Attribute) and x.func.attr in ("trim", "trim_end", "pad_trim_left_right") and "-" in ast.unparse(x))
+    rets = [n for n in cfg.nodes if n.kind == "return" and n.ast.value is not None]
+    for r in rets:
+        # a return that can be reached without passing the trim section
+        first_trim_tests = [t for t in cfg.nodes if t.kind == "test" and any(t is x or x in cfg.reachable_from_edges([(t, "T")], avoid=[y for y in cfg.nodes if y.kind == "test" and y is not t]) for x in trims)]
+        early = not any(cfg.dominated(r, [t]) for t in first_trim_tests) if first_trim_tests else False
+        if not early:
+            continue
+        conds = set()
+        for t in cfg.nodes:
+            if t.kind == "test" and r not in ExcEngine._reach_without_edge(cfg, t, "T"):
+                conds.add(ast.unparse(t.ast))
+        txt = " and ".join(sorted(conds))
+        fits_c = any(k in txt for k in (f"{cc} <= {mc}", f"{mc} >= {cc}"))
+        fits_r = any(k in txt for k in (f"{cr} <= {mr}", f"{mr} >= {cr}"))
+        rr.inst(f"early return {norm(r.ast, 30)}", True, {"return": norm(r.ast, 40), "under": sorted(conds)})
+        if not (fits_c and fits_r):
+            rr.add(finding("GUARD", rn, r.stmt, f"`{norm(r.ast, 40)}` returns the canvas before the trim section under {sorted(conds)}; it is only right when the canvas fits in both directions ({cc} <= {mc} and {cr} <= {mr}): fixed content wider than the view comes back wider than the requested size", construct="untrimmed return without both fit tests"))
+    return rr
+
+
 QUERIES = {"rows_max", "get_scrollpos", "get_visible_amount", "get_first_visible_pos", "rows", "pack"}
 
 
@@ -380,6 +462,8 @@ def run(ctx: Ctx):
         rule_forwarding(ctx),
         rule_query_size(ctx),
         rule_size_memo(ctx),
+        rule_positions_opaque(ctx),
+        rule_fit_test(ctx),
         fresh.run_fresh(p, "C20.7", ["urwid.canvas"], floor=30),
         inv.run_inv(p, "C20.6", floor_classes=2, floor_nontrivial=1, exceptions=INV_EXCEPTIONS, only_classes={"Scrollable", "ScrollBar"}),
         fwd.run_fwd(p, "C20.8", ("urwid.widget.scrollable", "urwid.widget.listbox"), floor=20, description="the scrolling protocol (get_scrollpos, rows_max, get_first_visible_pos, ...) and the renderers pass the focus flag on: the position is computed for the rendering that is shown"),
@@ -388,6 +472,8 @@ def run(ctx: Ctx):
 
 _F = "urwid/widget/scrollable.py"
 MUTANTS = [
+    Mut("first-visible-pos-returns-position", "urwid/widget/listbox.py", "ListBox.get_first_visible_pos", "        over = 0\n        _widget, first_pos = self.body.get_prev(first_pos)", "        if isinstance(first_pos, int):\n            return first_pos\n\n        over = 0\n        _widget, first_pos = self.body.get_prev(first_pos)", "KIND|widget.listbox.ListBox.get_first_visible_pos"),
+    Mut("fit-test-rows-only", _F, "Scrollable.render", "        if canv_cols <= maxcol and canv_rows <= maxrow:\n            # Canvas is small enough to fit without trimming: nothing is scrolled out, reset the position", "        if canv_rows <= maxrow:\n            # fits vertically", "GUARD|widget.scrollable.Scrollable.render"),
     Mut("default-store-upper-only", _F, "Scrollable._adjust_trim_top", "            self._trim_top = ensure_bounds(trim_top)\n", "            self._trim_top = min(trim_top, canv_rows - maxrow)\n", "WRITER|widget.scrollable.Scrollable._adjust_trim_top"),
     Mut("ensure-bounds-no-floor", _F, "Scrollable._adjust_trim_top", "return max(0, min(canv_rows - maxrow, new_trim_top))", "return min(canv_rows - maxrow, new_trim_top)", "WRITER|"),
     Mut("line-down-unclamped", _F, "Scrollable._adjust_trim_top", "self._trim_top = ensure_bounds(trim_top + 1)", "self._trim_top = trim_top + 1", "WRITER|widget.scrollable.Scrollable._adjust_trim_top"),
